@@ -779,51 +779,63 @@ fn judge_listener(kind: LKind, seq: &[Act], burst: bool, run: &CaseRun<LObs>, ac
 }
 
 /// every sequence of 1..=depth actions; `prune`: extend a sequence only while accept() is pending
-fn enumerate_listener(kind: LKind, depth: usize, prune: bool, threads: usize, deadline: Instant, acc: &mut Acc) -> (usize, Vec<u64>) {
+/// Levels up to `min_depth` are always completed; deeper levels only while `deadline` has not passed (a level that
+/// is cut is reported as not done).
+fn enumerate_listener(kind: LKind, min_depth: usize, depth: usize, prune: bool, threads: usize, deadline: Instant, acc: &mut Acc) -> (usize, Vec<u64>) {
     let alpha = alphabet(kind);
     let mut frontier: Vec<Vec<Act>> = vec![vec![]];
     let mut per_level = vec![];
     let mut done = 0;
-    for _level in 1..=depth {
-        let cands: Vec<Vec<Act>> = frontier
-            .iter()
-            .flat_map(|p| {
-                alpha.iter().map(move |a| {
-                    let mut q = p.clone();
-                    q.push(*a);
-                    q
-                })
-            })
-            .collect();
-        if cands.is_empty() {
+    for level in 1..=depth {
+        if frontier.is_empty() {
             // nothing alive any more: all longer sequences are covered by their dead prefixes
             done = depth;
             break;
         }
         let cut = std::sync::atomic::AtomicBool::new(false);
-        let runs = par_map(&cands, threads, |_, seq| {
-            if Instant::now() > deadline {
-                cut.store(true, std::sync::atomic::Ordering::Relaxed);
-                return None;
-            }
-            Some((run_listener_case(kind, seq, false), if seq.len() >= 2 { Some(run_listener_case(kind, seq, true)) } else { None }))
-        });
         let mut next = vec![];
-        for (seq, run) in cands.iter().zip(runs.iter()) {
-            let Some((run, brun)) = run else { continue };
-            judge_listener(kind, seq, false, run, acc);
-            if let Some(brun) = brun {
-                judge_listener(kind, seq, true, brun, acc);
+        let mut n_cands: u64 = 0;
+        // a level is executed in slices of the frontier: the candidates and runs of one slice are judged and
+        // dropped before the next starts (a whole level of candidates and run records once needed > 60 GiB)
+        let per_slice = (20_000 / alpha.len().max(1)).max(1);
+        for prefixes in frontier.chunks(per_slice) {
+            let slice: Vec<Vec<Act>> = prefixes
+                .iter()
+                .flat_map(|p| {
+                    alpha.iter().map(move |a| {
+                        let mut q = p.clone();
+                        q.push(*a);
+                        q
+                    })
+                })
+                .collect();
+            n_cands += slice.len() as u64;
+            let runs = par_map(&slice, threads, |_, seq| {
+                if level > min_depth && Instant::now() > deadline {
+                    cut.store(true, std::sync::atomic::Ordering::Relaxed);
+                    return None;
+                }
+                Some((run_listener_case(kind, seq, false), if seq.len() >= 2 { Some(run_listener_case(kind, seq, true)) } else { None }))
+            });
+            for (seq, run) in slice.iter().zip(runs.iter()) {
+                let Some((run, brun)) = run else { continue };
+                judge_listener(kind, seq, false, run, acc);
+                if let Some(brun) = brun {
+                    judge_listener(kind, seq, true, brun, acc);
+                }
+                let alive = run.obs.as_ref().map(|o| o.alive.last().copied().unwrap_or(false)).unwrap_or(false);
+                if (alive || !prune) && level < depth {
+                    next.push(seq.clone());
+                }
+                if !alive {
+                    acc.count(if prune { "listener_sequences_ending_dead" } else { "unpruned_sequences_ending_dead" }, 1);
+                }
             }
-            let alive = run.obs.as_ref().map(|o| o.alive.last().copied().unwrap_or(false)).unwrap_or(false);
-            if alive || !prune {
-                next.push(seq.clone());
-            }
-            if !alive {
-                acc.count(if prune { "listener_sequences_ending_dead" } else { "unpruned_sequences_ending_dead" }, 1);
+            if cut.load(std::sync::atomic::Ordering::Relaxed) {
+                break;
             }
         }
-        per_level.push(cands.len() as u64);
+        per_level.push(n_cands);
         if cut.load(std::sync::atomic::Ordering::Relaxed) {
             acc.truncated = true;
             break;
@@ -1340,15 +1352,20 @@ pub fn run(ctx: &Ctx) -> Outcome {
     let (depth, unpruned_depth) = if ctx.quick() { (4, 2) } else if ctx.tier == vlib::report::Tier::Thorough { (7, 3) } else { (5, 3) };
     let mut bound_parts = vec![];
     let mut sequences_covered: u64 = 0;
-    // ---- part 1
-    for kind in LKINDS {
+    // ---- part 1: every kind completes `base_depth`; the levels beyond it share the budget (a level that does
+    // not fit is reported as not completed and the evidence says exhaustive:false for it)
+    let base_depth = depth.min(5);
+    for (i, kind) in LKINDS.iter().copied().enumerate() {
         let a = alphabet(kind).len() as u64;
-        let (done, levels) = enumerate_listener(kind, depth, true, ctx.threads, deadline, &mut acc);
-        let covered: u64 = (1..=done as u32).map(|k| a.pow(k)).sum();
-        sequences_covered += covered;
+        let now = Instant::now();
+        let share = deadline.saturating_duration_since(now) / (LKINDS.len() - i + 1) as u32;
+        let (done, levels) = enumerate_listener(kind, base_depth, depth, true, ctx.threads, now + share, &mut acc);
+        let covered: u64 = (1..=done as u32).map(|k| a.saturating_pow(k)).fold(0u64, |x, y| x.saturating_add(y));
+        sequences_covered = sequences_covered.saturating_add(covered);
         bound_parts.push(format!(
-            "{} listener: all sequences of <= {} of {} client actions ({} sequences; {} tree nodes executed after pruning at dead listeners, per level {:?}; every node stepwise and, from 2 actions on, also pipelined in one burst)",
-            kind.name(), done, a, covered, levels.iter().sum::<u64>(), levels
+            "{} listener: all sequences of <= {} of {} client actions ({} sequences; {} tree nodes executed after pruning at dead listeners, per level {:?}{}; every node stepwise and, from 2 actions on, also pipelined in one burst)",
+            kind.name(), done, a, covered, levels.iter().sum::<u64>(), levels,
+            if done < depth { format!("; level {} was started and cut by the time budget - its runs were judged but the level is not claimed", done + 1) } else { String::new() }
         ));
         if done < depth {
             acc.truncated = true;
@@ -1357,7 +1374,8 @@ pub fn run(ctx: &Ctx) -> Outcome {
     let pruned_exec = acc.executions;
     // ---- part 2
     let scripts = if ctx.quick() { single_tampers() } else { all_scripts() };
-    let n = enumerate_client(&scripts, ctx.threads, deadline, &mut acc);
+    // the client product is small and always completed
+    let n = enumerate_client(&scripts, ctx.threads, deadline + Duration::from_secs(3600), &mut acc);
     bound_parts.push(format!(
         "SCRAM client x {{SHA-1, SHA-256, SHA-512}}: {} server scripts each ({}), {} executed",
         scripts.len(),
@@ -1367,10 +1385,7 @@ pub fn run(ctx: &Ctx) -> Outcome {
     // ---- validation of the pruning: the same enumeration without pruning, to a smaller depth
     let before_unpruned = acc.executions;
     for kind in LKINDS {
-        if acc.truncated {
-            break;
-        }
-        let (done, levels) = enumerate_listener(kind, unpruned_depth, false, ctx.threads, deadline, &mut acc);
+        let (done, levels) = enumerate_listener(kind, unpruned_depth, unpruned_depth, false, ctx.threads, deadline, &mut acc);
         bound_parts.push(format!("{} listener unpruned (validates the pruning): every sequence of <= {} actions executed stepwise and pipelined, per level {:?}", kind.name(), done, levels));
     }
     let unpruned_exec = acc.executions - before_unpruned;
